@@ -102,3 +102,16 @@ func (r *Rand) Partition(n int, maxChunk int) []int {
 	}
 	return out
 }
+
+// Perm returns a random permutation of 0..n-1.
+func (r *Rand) Perm(n int) []int {
+	p := make([]int, n)
+	for i := range p {
+		p[i] = i
+	}
+	for i := n - 1; i > 0; i-- {
+		j := r.Intn(i + 1)
+		p[i], p[j] = p[j], p[i]
+	}
+	return p
+}
